@@ -1051,7 +1051,7 @@ func modeC15Live() {
 		upstreams: map[string]string{"u1": "udp"},
 		rules:     []ruleSpec{{Forward: "u1"}},
 		limiter:   lim,
-		clients:   []string{"127.0.1.1", "127.0.2.1", "127.0.3.1", "127.0.4.1", "127.0.5.1"},
+		clients:   []string{"127.0.1.1", "127.0.2.1", "127.0.3.1", "127.0.4.1", "127.0.5.1", "127.0.6.1"},
 	})
 	if err != nil {
 		panic(err)
@@ -1125,6 +1125,30 @@ func modeC15Live() {
 		io.ReadFull(c, make([]byte, 2))
 		flood() // ... and go on asking
 		c.Close()
+	}
+	// a query of a subnet is in flight at a slow upstream (1 s) while the subnet goes on asking: the charges booked
+	// when the answer is there (whatever instant they are booked for) do not give the subnet tokens twice
+	{
+		src := "127.0.6.1"
+		done := make(chan struct{})
+		go func() {
+			defer close(done)
+			in.sendMay("udp", src, mkq(uniq()+".r0t60d1000.slow.test."), 3*time.Second)
+		}()
+		time.Sleep(20 * time.Millisecond)
+		flood := func() {
+			par(12, func(w int) {
+				for k := 0; k < 3; k++ {
+					in.sendMay("udp", src, mkq(uniq()+".r0t60d0.inflight.test."), 2*time.Second)
+				}
+			})
+		}
+		flood()
+		time.Sleep(850 * time.Millisecond)
+		in.sendMay("udp", src, mkq(uniq()+".r0t60d0.inflight.test."), 2*time.Second)
+		<-done
+		time.Sleep(15 * time.Millisecond)
+		flood()
 	}
 	// a third subnet opens QUIC / TLS connections while A's connection budget is exhausted
 	in.send("quic", "127.0.3.1", mkq(uniq()+".r0t60d0.third.test."), 3*time.Second, nil)
